@@ -220,6 +220,7 @@ type ctxOverride struct {
 	prevHashCtx  []byte
 	poolStake    *uint64
 	issuerField  []byte // ValidateHeaderInput.IssuerVkey only (header body untouched)
+	bodyCbor     []byte // HeaderBodyCbor handed to the validator (default: re-encoded from the body)
 	validatorCfg *consensus.NetworkConfig
 }
 
@@ -257,6 +258,9 @@ func (s *scenario) validate(b *consensus.HeaderBody, sig []byte, o *ctxOverride)
 		}
 		if o.issuerField != nil {
 			in.IssuerVkey = o.issuerField
+		}
+		if o.bodyCbor != nil {
+			in.HeaderBodyCbor = o.bodyCbor
 		}
 		if o.validatorCfg != nil {
 			cfg = *o.validatorCfg
@@ -967,5 +971,40 @@ func (s *scenario) history(r *core.Rand, major uint64, all []tamper) {
 		}
 	}
 	revalidate()
+	// in-place discipline: the very slices the genuine call was given (header
+	// fields, KES signature, header-body bytes) are mutated, validated on the
+	// same instance, restored; HeaderBodyCbor stays the genuine (signed) bytes
+	// unless it is the buffer being mutated
+	{
+		b := &s.hdr.Body
+		sig := s.hdr.Signature
+		bodyBytes := bodyNode(b, s.mode).Encode()
+		ps := s.prevSlot
+		gen := tamper{name: "genuine-same-buffers", body: b, sig: sig, over: &ctxOverride{prevSlot: &ps, bodyCbor: bodyBytes}}
+		s.judge(gen)
+		bufs := []struct {
+			name string
+			buf  []byte
+		}{{"issuer-vkey", b.IssuerVkey}, {"vrf-key", b.VrfKey}, {"vrf-proof", b.VrfProof}, {"vrf-output", b.VrfOutput},
+			{"opcert-hot-key", b.OpCertHotVkey}, {"opcert-signature", b.OpCertSignature}, {"kes-signature", sig}, {"header-body-cbor", bodyBytes}}
+		if s.mode == consensus.ConsensusModeTPraos {
+			bufs = append(bufs, struct {
+				name string
+				buf  []byte
+			}{"nonce-vrf-proof", b.NonceVrfProof}, struct {
+				name string
+				buf  []byte
+			}{"nonce-vrf-output", b.NonceVrfOutput})
+		}
+		for _, bf := range bufs {
+			for j := 0; j < 3; j++ {
+				bit := r.Intn(8 * len(bf.buf))
+				bf.buf[bit/8] ^= 1 << (bit % 8)
+				s.judge(tamper{name: "in-place:" + bf.name, body: b, sig: sig, over: &ctxOverride{prevSlot: &ps, bodyCbor: bodyBytes}, wantVH: true, extraWit: map[string]any{"flipped_bit": bit}})
+				bf.buf[bit/8] ^= 1 << (bit % 8)
+			}
+			s.judge(gen)
+		}
+	}
 	c.Count("histories", 1)
 }
